@@ -44,19 +44,26 @@ class Ctx:
         obj, _ = build(0)
         self.cfg = oc.cfg_of(obj, table)
         self.public = [g for g in table['getters'] if not g.startswith('_')]
+        # getters that raise on a freshly built object (sent to the model, whose getters may raise too)
+        for g in table['getters']:
+            self.fresh_hash(g)
+        self.raising = sorted(self.gid[g] for g, v in self.unavailable.items() if str(v).startswith('err'))
 
-    def fresh_hash(self, g):
-        if g not in self.fresh:
-            a, wa = self.build(0)
+    def fresh_hash(self, g, variant=0):
+        k = g if variant == 0 else (g, variant)
+        if k not in self.fresh:
+            with oc.quiet():
+                a, wa = self.build(variant)
+                b, wb = self.build(variant)
             sa = oc.observed_read(a, self.table, wa, g)
-            b, wb = self.build(0)
             sb = oc.observed_read(b, self.table, wb, g)
-            self.fresh[g] = sa.value_hash
-            if sa.err:
-                self.unavailable[g] = sa.value_hash
-            elif sa.value_hash != sb.value_hash:
-                self.unavailable[g] = 'not-reproducible'
-        return self.fresh[g]
+            self.fresh[k] = sa.value_hash
+            if variant == 0:
+                if sa.err:
+                    self.unavailable[g] = sa.value_hash
+                elif sa.value_hash != sb.value_hash:
+                    self.unavailable[g] = 'not-reproducible'
+        return self.fresh[k]
 
 
 def run_history(ctx, hist):
@@ -70,20 +77,33 @@ def run_history(ctx, hist):
     return ctor, steps
 
 
+def run_history2(ctx, seq):
+    """two live objects of the class (inputs: variant 0 and variant 1), reads interleaved as `seq` = [(obj, getter)]"""
+    del oc.LOG[:]
+    with oc.quiet():
+        objs = [ctx.build(0), ctx.build(1)]
+    steps = []
+    for (o, g) in seq:
+        st = oc.observed_read(objs[o][0], ctx.table, objs[o][1], g)
+        # the other object must not be touched either
+        steps.append(st)
+    return steps
+
+
 def il(ids):
     ids = sorted(set(ids))
     return ','.join(str(i) for i in ids) if ids else '-'
 
 
-def impl_string(ctx, ctor, steps):
+def impl_string(ctx, ctor, steps, variants=None):
     if ctor:
         return 'ctor-computes=' + ','.join(ctor)
     recs = []
-    for st in steps:
-        fresh = ctx.fresh_hash(st.g)
+    for i, st in enumerate(steps):
+        fresh = ctx.fresh_hash(st.g, variants[i] if variants else 0)
         same = '1' if st.value_hash == fresh or st.g in ctx.unavailable and ctx.unavailable[st.g] == 'not-reproducible' else '0'
-        if st.err == 'RecursionError':
-            same = 'r'
+        if st.err:
+            same = 'e' if same == '1' else 'E'      # raised: like the fresh read / unlike it
         pw = [ctx.sid[s] for s in st.pw] + [900 + i for i, _ in enumerate(st.unknown)]
         # a getter that raises stores nothing and runs again on the next read; the model has no
         # exceptions (F is total), so the raising getter itself is not counted as having run
@@ -119,6 +139,8 @@ def cmp_hist(impl, model):
         if x['g'] != y['g'] or not x['f'] <= y['f'] or not x['w'] <= y['w'] or not x['c'] <= y['c'] or x['i'] > y['i']:
             return False
         if y['s'] == '1' and x['s'] != '1':
+            return False
+        if y['s'] == 'r' and x['s'] not in ('e', 'E'):     # the model's getter raises: so must the real one
             return False
     return True
 
@@ -166,18 +188,46 @@ def cases(rng, tier, seed):
         for h in histories(ctx, rng, tier):
             ctor, steps = run_history(ctx, h)
             impl = impl_string(ctx, ctor, steps)
-            line = 'C13 hist %s %s %s' % (ctx.cls, il(ctx.cfg), ','.join(str(ctx.gid[g]) for g in h) if h else '-')
+            line = 'C13 hist %s %s %s %s' % (ctx.cls, il(ctx.cfg), ','.join(str(ctx.gid[g]) for g in h) if h else '-', il(ctx.raising))
             out.append(Case(line, impl, 'hist/%s/%s' % (ctx.cls, ctx.label), cmp=cmp_hist,
                             meta={'cls': ctx.cls, 'label': ctx.label, 'hist': list(h), 'ctor': ctor,
                                   'steps': [{'g': s.g, 'h': s.value_hash, 'fired': s.fired, 'cl': s.cl, 'inp': s.inp,
                                              'was_cached': s.was_cached, 'same_obj': s.same_obj_as_cached, 'ret_stored': s.returned_is_stored} for s in steps]},
                             nontrivial=len(h) >= 2))
+        # two live objects of the same class on different inputs, reads interleaved (state shared between
+        # instances — class attributes, module-level caches — shows as a value that is not the object's own)
+        for seq in interleavings(ctx, rng, tier):
+            steps = run_history2(ctx, seq)
+            vs = [o for (o, _) in seq]
+            impl = impl_string(ctx, [], steps, vs)
+            line = 'C13 hist2 %s %s %s %s %s' % (ctx.cls, il(ctx.cfg), ','.join(str(o) for o in vs), ','.join(str(ctx.gid[g]) for (_, g) in seq), il(ctx.raising))
+            out.append(Case(line, impl, 'hist2/%s/%s' % (ctx.cls, ctx.label), cmp=cmp_hist,
+                            meta={'cls': ctx.cls, 'label': ctx.label, 'hist': [g for (_, g) in seq], 'objs': vs, 'ctor': [],
+                                  'steps': [{'g': s.g, 'h': s.value_hash, 'fired': s.fired, 'cl': s.cl, 'inp': s.inp,
+                                             'was_cached': s.was_cached, 'same_obj': s.same_obj_as_cached, 'ret_stored': s.returned_is_stored} for s in steps]},
+                            nontrivial=True))
     return out
 
 
+def interleavings(ctx, rng, tier):
+    pub = ctx.public
+    S = []
+    S.append([(o, g) for g in pub for o in (0, 1)])                      # A.g1 B.g1 A.g2 B.g2 …
+    S.append([(o, g) for g in reversed(pub) for o in (1, 0)])
+    S.append([(0, g) for g in pub] + [(1, g) for g in pub] + [(0, g) for g in pub])   # A all, B all, A again
+    for a in pub:                                                          # B's result between A's dependencies
+        S.append([(0, a), (1, a), (1, pub[-1]), (0, pub[-1]), (0, a), (1, a)])
+    n = 20 if tier == 'thorough' else 4
+    for _ in range(n):
+        seq = [(o, g) for g in pub for o in (0, 1)]
+        rng.shuffle(seq)
+        S.append(seq)
+    return S
+
+
 # ------------------------------------------------------------------ oracle
-def judge(ctx, hist, ctor, steps):
-    """property failures of one observed history: [(key, what)]"""
+def judge(ctx, hist, ctor, steps, objs=None):
+    """property failures of one observed history: [(key, what)]; `objs`: which of two live objects each read was on"""
     out = []
     C = ctx.cls
     for g in ctor:
@@ -185,7 +235,7 @@ def judge(ctx, hist, ctor, steps):
     seen = []
     for i, st in enumerate(steps):
         g = st['g']
-        fresh = ctx.fresh_hash(g)
+        fresh = ctx.fresh_hash(g, objs[i] if objs else 0)
         una = ctx.unavailable.get(g)
         if una != 'not-reproducible' and st['h'] != fresh:
             out.append(('%s/%s/differs-from-fresh' % (C, g),
@@ -235,7 +285,12 @@ def oracle(rng, tier, seed, focus, cases):
         ctx = ctxs[(m['cls'], m['label'])]
         n_hist += 1
         n_reads += len(m['steps'])
-        for key, what in judge(ctx, m['hist'], m['ctor'], m['steps']):
+        for key, what in judge(ctx, m['hist'], m['ctor'], m['steps'], m.get('objs')):
+            if m.get('objs'):
+                key = key + '/interleaved-with-second-object'
+                what = what + ' [two live %s objects on different inputs, reads interleaved: objects %s, results %s]' % (m['cls'], m['objs'], m['hist'])
+                fails.append(Failure(key, what, {'cls': m['cls'], 'label': m['label'], 'hist': m['hist'], 'objs': m['objs'], 'key': key, 'seed': seed}, case=c))
+                continue
             if key.endswith('/differs-from-fresh'):
                 # name the culprit: the reads of the shortest sub-history that still shows the difference
                 idx = max(i for i, s in enumerate(m['steps']) if s['g'] == key.split('/')[1])
@@ -252,15 +307,130 @@ def oracle(rng, tier, seed, focus, cases):
                 what = what + ' [minimal history: %s]' % h
             # one Failure per case so that the disagreement on that very case is explained
             fails.append(Failure(key, what, seen[k2], case=c))
+    # results must not alias the input (data / time axis) nor unrelated results
+    n_mut = 0
+    for ctx in contexts(seed, tier):
+        for g in ctx.public:
+            res, n = result_mutation(ctx, g)
+            n_mut += n
+            for key, what in res:
+                fails.append(Failure(key, what, {'cls': ctx.cls, 'label': ctx.label, 'mutate': g, 'key': key, 'seed': seed}))
     una = {'%s/%s' % (c.cls, c.label): dict(c.unavailable) for c in contexts(seed, tier) if c.unavailable}
     # keep one Failure per (key, case) but not thousands of copies of the same text
-    return fails, {'histories': n_hist, 'reads': n_reads, 'distinct_failure_keys': sorted({f.key for f in fails}),
+    return fails, {'histories': n_hist, 'reads': n_reads, 'result_buffers_mutated': n_mut, 'distinct_failure_keys': sorted({f.key for f in fails}),
                    'unavailable': una}
+
+
+# ------------------------------------------------------------------ results must not alias the input
+def _mutate(v, depth=0):
+    """change a result in place as a user might (data += 1, time axis += 5); returns number of buffers touched"""
+    import numpy as np
+    ts, _ = oc.nt()
+    n = 0
+    if depth > 4:
+        return 0
+    if isinstance(v, ts.TimeSeriesBase):
+        try:
+            t = v.time
+            np.add(np.asarray(t), 5, out=np.asarray(t))
+            n += 1
+        except Exception:
+            pass
+        n += _mutate(v.data, depth + 1)
+    elif isinstance(v, np.ndarray):
+        if v.dtype.kind in 'fciu' and v.flags.writeable and v.size:
+            try:
+                np.add(v, 1, out=v, casting='unsafe')
+                n += 1
+            except Exception:
+                pass
+    elif isinstance(v, (tuple, list)):
+        for x in v:
+            n += _mutate(x, depth + 1)
+    elif isinstance(v, dict):
+        for x in v.values():
+            n += _mutate(x, depth + 1)
+    return n
+
+
+def _deep_input_hash(watched, obj):
+    import numpy as np
+    ts, _ = oc.nt()
+    hs = []
+    xs = list(watched) + ([obj.__dict__['input']] if obj.__dict__.get('input') is not None else [])
+    for x in xs:
+        hs.append(oc.hv(x))
+        if isinstance(x, ts.TimeSeriesBase) and 'time' in x.__dict__:
+            hs.append(oc.hv(np.asarray(x.__dict__['time'])))
+    return hs
+
+
+def _closure(table, g):
+    deps = {r['name']: [table['getters'][d] for (d, _) in r['deps']] for r in table['recs']}
+    seen, todo = set(), [g]
+    while todo:
+        x = todo.pop()
+        if x in seen:
+            continue
+        seen.add(x)
+        todo += deps.get(x, [])
+    return seen
+
+
+def result_mutation(ctx, g):
+    """read `g` on a fresh object whose input axes were already read, change the RESULT in place, then check
+    that the input (data and time axis) is untouched and that unrelated later reads equal fresh reads"""
+    ts, _ = oc.nt()
+    out = []
+    with oc.quiet():
+        obj, watched = ctx.build(0)
+        for x in list(watched) + ([obj.__dict__.get('input')] if obj.__dict__.get('input') is not None else []):
+            if isinstance(x, ts.TimeSeriesBase):
+                try:
+                    x.time
+                except Exception:
+                    pass
+    v, err = oc.read_result(obj, g)
+    if err:
+        return out, 0
+    before = _deep_input_hash(watched, obj)
+    n = _mutate(v)
+    after = _deep_input_hash(watched, obj)
+    C = ctx.cls
+    if before != after:
+        out.append(('%s/%s/result-aliases-input' % (C, g),
+                    '%s(%s): changing the object returned by `%s` in place (data += 1, time axis += 5) changed the input series (data or time axis)' % (C, ctx.label, g)))
+    cg = _closure(ctx.table, g)
+    for h in ctx.public:
+        if h == g or h in obj.__dict__ or (cg & _closure(ctx.table, h)):
+            continue
+        if ctx.unavailable.get(h):
+            continue
+        st = oc.observed_read(obj, ctx.table, watched, h)
+        if st.value_hash != ctx.fresh_hash(h):
+            out.append(('%s/%s/changed-by-mutating-result/%s' % (C, h, g),
+                        '%s(%s): after the result of `%s` was changed in place by the caller, `%s` (which does not depend on it) differs from a fresh read' % (C, ctx.label, g, h)))
+    return out, n
 
 
 def replay(d):
     seed = d.get('seed', 0)
+    if d.get('mutate'):
+        for ctx in contexts(seed, 'quick'):
+            if ctx.cls == d['cls'] and ctx.label == d['label']:
+                for key, what in result_mutation(ctx, d['mutate'])[0]:
+                    if key == d['key']:
+                        return Failure(key, what, d)
+                return None
     for ctx in contexts(seed, 'quick'):
+        if ctx.cls == d['cls'] and ctx.label == d['label'] and d.get('objs'):
+            steps = run_history2(ctx, list(zip(d['objs'], d['hist'])))
+            obs = [{'g': s.g, 'h': s.value_hash, 'fired': s.fired, 'cl': s.cl, 'inp': s.inp, 'was_cached': s.was_cached,
+                    'same_obj': s.same_obj_as_cached, 'ret_stored': s.returned_is_stored} for s in steps]
+            for key, what in judge(ctx, d['hist'], [], obs, d['objs']):
+                if d['key'].startswith(key):
+                    return Failure(d['key'], what, d)
+            return None
         if ctx.cls == d['cls'] and ctx.label == d['label']:
             ctor, steps = run_history(ctx, d['hist'])
             obs = [{'g': s.g, 'h': s.value_hash, 'fired': s.fired, 'cl': s.cl, 'inp': s.inp,
